@@ -1,9 +1,607 @@
-import Model.Common
-/-! Oracle handlers for C11 (stub until the property's model exists). -/
-namespace OracleC11
-open Common
+import Model.C11
+/-!
+Oracle handlers for C11.
 
-def handle (_cmd : String) (_f : List String) : String × String × String :=
-  ("unknown-cmd", "-", "-")
+* `diff`  : is the observed list of windows a run of the model's transition system? (depth-first
+  search over the internal events between two driver actions; the release order and the number of
+  hedging ticks are read off the observation).
+* `judge` : the property statement evaluated on the observed trace alone (never calls the model).
+-/
+namespace OracleC11
+open Common C11
+
+/-! ## parsing -/
+
+structure SetD where
+  zones : List Nat
+  maxErr : Nat
+  maxUnz : Nat
+  za : Bool
+  deriving Repr
+
+structure Opts where
+  kind : Char
+  min : Bool
+  hedge : Bool
+  term : Bool
+  sorter : Option (List Nat)
+  deriving Repr
+
+structure Win where
+  act : String
+  starts : List Nat
+  cleans : List Nat
+  ret : Option String
+  ctx : List Char
+  tb : Nat
+  bad : Bool
+  deriving Repr
+
+def natOf (s : String) : Nat := s.toNat?.getD 0
+
+def parseOpts (s : String) : Option Opts :=
+  match s.splitOn " " with
+  | [k, m, h, t, z] =>
+    some { kind := (k.toList.head?).getD 'q', min := m == "m1", hedge := h == "h1", term := t == "t1"
+           sorter := if z == "z-" then none else natList? (z.drop 1).toString }
+  | _ => none
+
+def parseSet (s : String) : Option SetD :=
+  match s.splitOn ":" with
+  | [zs, e, u, a] =>
+    (natList? zs).map fun z => { zones := z, maxErr := natOf (e.drop 1).toString, maxUnz := natOf (u.drop 1).toString, za := a == "a1" }
+  | _ => none
+
+def parseSets (s : String) : Option (List SetD) := (s.splitOn "|").mapM parseSet
+
+def parseTrace (s : String) : List Win :=
+  let toks := s.splitOn " "
+  let flush (cur : Option Win) (acc : List Win) : List Win := match cur with | some w => w :: acc | none => acc
+  let (cur, acc) := toks.foldl (fun (st : Option Win × List Win) t =>
+    let (cur, acc) := st
+    if t.startsWith "A" then
+      (some { act := (t.drop 1).toString, starts := [], cleans := [], ret := none, ctx := [], tb := 0, bad := false }, flush cur acc)
+    else match cur with
+      | none => (cur, acc)
+      | some w =>
+        if t.startsWith "s" then (some { w with starts := w.starts ++ [natOf (t.drop 1).toString] }, acc)
+        else if t.startsWith "c" then (some { w with cleans := w.cleans ++ [natOf (t.drop 1).toString] }, acc)
+        else if t.startsWith "R" then (some { w with ret := some t }, acc)
+        else if t.startsWith "X" then (some { w with ctx := (t.drop 1).toString.toList }, acc)
+        else if t.startsWith "T" then (some { w with tb := natOf (t.drop 1).toString }, acc)
+        else if t == "Q!" then (some { w with bad := true }, acc)
+        else (cur, acc)) (none, [])
+  (flush cur acc).reverse
+
+/-- outcome letters of the script (`o=…`). -/
+def scriptOutcomes (script : String) : List Char :=
+  match (script.splitOn ";").head? with
+  | some o => (o.drop 2).toString.toList
+  | none => []
+
+def offsets (sets : List SetD) : List Nat :=
+  (sets.foldl (fun (acc : List Nat × Nat) s => (acc.1 ++ [acc.2], acc.2 + s.zones.length)) ([], 0)).1
+
+/-- (set, local index) of a global instance id. -/
+def locate (sets : List SetD) (g : Nat) : Nat × Nat :=
+  let rec go (k : Nat) (off : Nat) : List SetD → Nat × Nat
+    | [] => (k, g - off)
+    | s :: rest => if g < off + s.zones.length then (k, g - off) else go (k + 1) (off + s.zones.length) rest
+  go 0 0 sets
+
+def dedup (l : List Nat) : List Nat := l.foldl (fun acc x => if acc.contains x then acc else acc ++ [x]) []
+
+/-! ## release order read off the observation -/
+
+def toCfg (o : Opts) (s : SetD) : Cfg :=
+  { zones := s.zones, maxErrors := s.maxErr, maxUnavail := s.maxUnz, zoneAware := s.za, minimize := o.min
+    hedging := o.hedge, hasTerm := o.term, cancelAll := o.kind == 'q' }
+
+/-- `w0` = local instances started in the first window (in log order), `after` = started in later
+windows (in order). Requests released at the start come first in the log of the first window
+(a hedging tick needs at least one delay), so the initial group is a prefix of `w0`. -/
+def inferOrder (o : Opts) (c : Cfg) (w0 after : List Nat) : List Nat :=
+  if c.zoneMode then
+    let zs := distinct c.zones
+    match o.sorter with
+    | some ord => ord.filter (zs.contains ·)
+    | none =>
+      let minZ := zs.length - c.maxUnavail
+      let w0z := dedup (w0.map c.zoneOf)
+      let fz := w0z.take minZ
+      let lz := (dedup (w0z.drop minZ ++ after.map c.zoneOf)).filter (!fz.contains ·)
+      let never := zs.filter fun z => !fz.contains z && !lz.contains z
+      let fill := never.take (minZ - fz.length)
+      fz ++ fill ++ lz ++ never.drop (minZ - fz.length)
+  else
+    let all := List.range c.n
+    let w0 := dedup w0
+    let first := w0.take (c.n - c.maxErrors)
+    let later := (dedup (w0.drop (c.n - c.maxErrors) ++ after)).filter (!first.contains ·)
+    let never := all.filter fun i => !first.contains i && !later.contains i
+    let p := min c.maxErrors c.n
+    let fill := never.take (p - later.length)
+    later ++ fill ++ never.drop (p - later.length) ++ first
+
+/-! ## generic acceptance search -/
+
+def countOf (l : List Nat) (x : Nat) : Nat := (l.filter (· == x)).length
+
+inductive MoveKind | plain | tick (ticker : Nat) | timer
+  deriving DecidableEq
+
+structure Delta where
+  starts : List Nat
+  cleans : List Nat
+  ret : Option String
+
+structure Sys (σ : Type) where
+  moves : σ → List (MoveKind × σ)
+  delta : σ → σ → Delta
+  act : σ → String → Option σ
+  ctxOf : σ → Nat → Bool
+  wasStarted : σ → Nat → Bool
+  isReleased : σ → Nat → Bool     -- the request of instance g has been released to start (search heuristic only)
+  doomed : σ → List Nat → Bool    -- some released request with a live context is not among the starts still to be observed in this window
+
+structure Rem where
+  starts : List Nat
+  cleans : List Nat
+  ret : Option String
+
+def removeAll (l : List Nat) : List Nat → Option (List Nat)
+  | [] => some l
+  | x :: xs => if l.contains x then removeAll (l.erase x) xs else none
+
+def Rem.consume (r : Rem) (d : Delta) : Option Rem :=
+  match removeAll r.starts d.starts, removeAll r.cleans d.cleans with
+  | some s, some c =>
+    match d.ret with
+    | none => some { r with starts := s, cleans := c }
+    | some x => if r.ret == some x then some { starts := s, cleans := c, ret := none } else none
+  | _, _ => none
+
+def Rem.done (r : Rem) : Bool := r.starts.isEmpty && r.cleans.isEmpty && r.ret.isNone
+
+def Rem.ofWin (w : Win) : Rem := { starts := w.starts, cleans := w.cleans, ret := w.ret }
+
+def ctxMatches {σ} (sys : Sys σ) (s : σ) (w : Win) : Bool :=
+  (w.ctx.zipIdx).all fun (ch, g) =>
+    if ch == '-' then !sys.wasStarted s g
+    else sys.wasStarted s g && (sys.ctxOf s g == (ch == 'C'))
+
+/-- depth-first search for a run matching the windows. `pend` is the driver action of the current
+window that has not been applied yet (it may take effect after internal events that were already
+under way, e.g. a hedging tick). Returns (found, remaining node budget). -/
+def search {σ} (sys : Sys σ) : Nat → σ → Option String → Rem → Win → List Win → List Nat → Nat → Bool × Nat
+  | 0, _, _, _, _, _, _, budget => (false, budget)
+  | fuel + 1, s, pend, rem, cur, rest, ticks, budget =>
+    if budget = 0 then (false, 0) else
+    let budget := budget - 1
+    let mv0 := sys.moves s
+    -- pruning: a goroutine parked in awaitStart starts within the window in which a tick releases it
+    let dBefore := sys.doomed s rem.starts
+    -- heuristic: an observed start of a request that is still held back needs a tick (or a failure) first
+    let needTick := rem.starts.any fun g => !sys.isReleased s g
+    let mv := if needTick then (mv0.filter fun m => m.1 != .plain) ++ (mv0.filter fun m => m.1 == .plain) else mv0
+    let tickFirst : Bool × Nat :=
+      if needTick then
+        (mv.filter fun m => m.1 != .plain).foldl (fun (acc : Bool × Nat) m =>
+          if acc.1 then acc else
+          let ok := match m.1 with
+            | .plain => true
+            | .tick k => countOf ticks k + 1 ≤ cur.tb
+            | .timer => cur.tb ≥ 1
+          if !ok then acc else
+          match rem.consume (sys.delta s m.2) with
+          | none => acc
+          | some rem' =>
+            if !dBefore && sys.doomed m.2 rem'.starts then acc else
+            search sys fuel m.2 pend rem' cur rest (match m.1 with | .tick k => k :: ticks | _ => ticks) acc.2)
+          (false, budget)
+      else (false, budget)
+    if tickFirst.1 then tickFirst else
+    let budget := tickFirst.2
+    let mv := if needTick then mv0.filter (fun m => m.1 == .plain) else mv0
+    -- first choice: apply the pending driver action now
+    let actNow : Bool × Nat :=
+      match pend with
+      | some a =>
+        match sys.act s a with
+        | some s' => search sys fuel s' none rem cur rest ticks budget
+        | none => (false, budget)
+      | none => (false, budget)
+    if actNow.1 then actNow else
+    -- window can be closed here?
+    let closeHere : Bool × Nat :=
+      if pend.isNone && rem.done && (mv.all fun m => m.1 == .plain |> not) && ctxMatches sys s cur then
+        match rest with
+        | [] => (true, actNow.2)
+        | w :: ws => search sys fuel s (some w.act) (Rem.ofWin w) w ws ticks actNow.2
+      else (false, actNow.2)
+    if closeHere.1 then closeHere else
+    mv.foldl (fun (acc : Bool × Nat) m =>
+      if acc.1 then acc else
+      let ok := match m.1 with
+        | .plain => true
+        | .tick k => countOf ticks k + 1 ≤ cur.tb
+        | .timer => cur.tb ≥ 1
+      if !ok then acc else
+      match rem.consume (sys.delta s m.2) with
+      | none => acc
+      | some rem' =>
+        if m.1 != .plain && !dBefore && sys.doomed m.2 rem'.starts then acc else
+        search sys fuel m.2 pend rem' cur rest (match m.1 with | .tick k => k :: ticks | _ => ticks) acc.2)
+      (false, closeHere.2)
+
+def accept {σ} (sys : Sys σ) (s0 : σ) (wins : List Win) : String :=
+  match wins with
+  | [] => "empty-trace"
+  | w :: ws =>
+    if wins.any (·.bad) then "not-quiescent" else
+    let r := search sys 700 s0 none (Rem.ofWin w) w ws [] 200000
+    if r.1 then "-" else if r.2 = 0 then "no-run-found(budget)" else "no-run-found"
+
+/-! ### the single-set system -/
+
+def showErr (off : Nat) : ErrKind → String
+  | .inst i => s!"R!i{off + i}"
+  | .cancelled => "R!cancel"
+  | .invalid => "R!invalid"
+
+def showMain (off : Nat) : Main → Option String
+  | .running => none
+  | .retOk rs => some ("R+" ++ showNatList (rs.map (· + off)))
+  | .retErr e => some (showErr off e)
+
+def resOf (ch : Char) : Res := if ch == 'S' || ch == 's' then .ok else if ch == 'T' then .term else .err
+
+/-- "a3E" → (3, 'E') -/
+def parseArrival (a : String) : Option (Nat × Char) :=
+  if a.startsWith "a" then
+    let body := (a.drop 1).toString
+    match body.toList.getLast? with
+    | some ch => some (natOf (body.dropEnd 1).toString, ch)
+    | none => none
+  else none
+
+def stMoves (c : Cfg) (s : St) : List (MoveKind × St) :=
+  let one (k : MoveKind) (e : Ev) : List (MoveKind × St) := match step c s e with | some s' => [(k, s')] | none => []
+  one .plain .ctxDone ++ one .plain .recv ++ one .plain .drain ++
+  (List.range c.n).flatMap (fun i => one .plain (.begin i)) ++
+  (List.range c.n).flatMap (fun i => one .plain (.abort i)) ++
+  (if s.pending.isEmpty then [] else one (.tick 0) .tick)
+
+def singleSys (c : Cfg) : Sys St :=
+  { moves := stMoves c
+    delta := fun s s' => { starts := s'.started.drop s.started.length, cleans := s'.cleaned.drop s.cleaned.length
+                           ret := if s.main = .running then showMain 0 s'.main else none }
+    act := fun s a =>
+      if a == "c" then step c s .cancel
+      else if a == "w" || a == "end" then some s
+      else match parseArrival a with
+        | some (g, ch) => step c s (.finish g (resOf ch))
+        | none => none
+    ctxOf := fun s g => s.ctx g
+    wasStarted := fun s g => s.started.contains g
+    isReleased := fun s g => s.rel g == .go
+    doomed := fun s starts => (List.range c.n).any fun i => s.phase i == .waiting && s.rel i == .go && !s.ctx i && !starts.contains i }
+
+/-! ### the multi-set system -/
+
+def multiMoves (cs : List Cfg) (m : MSt) : List (MoveKind × MSt) :=
+  let one (k : MoveKind) (e : MEv) : List (MoveKind × MSt) := match mstep cs m e with | some m' => [(k, m')] | none => []
+  let ks := List.range cs.length
+  ks.flatMap (fun k => one .plain (.set k .ctxDone) ++ one .plain (.set k .recv) ++ one .plain (.set k .drain)) ++
+  ks.flatMap (fun k => match cs[k]? with
+    | some c => (List.range c.n).flatMap (fun i => one .plain (.set k (.begin i))) ++ (List.range c.n).flatMap (fun i => one .plain (.set k (.abort i)))
+    | none => []) ++
+  ks.flatMap (fun k => one .plain (.join k)) ++ one .plain .ret ++
+  ks.flatMap (fun k => if (m.sets k).pending.isEmpty then [] else one (.tick k) (.set k .tick))
+
+def sortNat (l : List Nat) : List Nat := (l.toArray.qsort (· < ·)).toList
+
+def multiSys (sets : List SetD) (cs : List Cfg) : Sys MSt :=
+  let offs := offsets sets
+  let off (k : Nat) : Nat := offs.getD k 0
+  { moves := multiMoves cs
+    delta := fun m m' =>
+      let per := (List.range cs.length).map fun k =>
+        let s := m.sets k
+        let s' := m'.sets k
+        ((s'.started.drop s.started.length).map (· + off k), (s'.cleaned.drop s.cleaned.length).map (· + off k))
+      { starts := per.flatMap (·.1), cleans := per.flatMap (·.2)
+        ret := if m.ret.isNone then
+            match m'.ret with
+            | some (.ok rs) => some ("R+" ++ showNatList (sortNat (rs.map fun (k, i) => off k + i)))
+            | some (.error (k, e)) => some (showErr (off k) e)
+            | none => none
+          else none }
+    act := fun m a =>
+      if a == "c" then mstep cs m .cancel
+      else if a == "w" || a == "end" then some m
+      else if a.startsWith "d" then
+        let (k, i) := locate sets (natOf (a.drop 1).toString)
+        mstep cs m (.done k i)
+      else match parseArrival a with
+        | some (g, ch) =>
+          let (k, i) := locate sets g
+          if ch == 'S' then mstep cs m (.set k (.finish i .ok)) else mstep cs m (.finishDone k i (resOf ch))
+        | none => none
+    ctxOf := fun m g => let (k, i) := locate sets g; (m.sets k).ctx i
+    wasStarted := fun m g => let (k, i) := locate sets g; (m.sets k).started.contains i
+    isReleased := fun m g => let (k, i) := locate sets g; (m.sets k).rel i == .go
+    doomed := fun m starts => (List.range cs.length).any fun k =>
+      let st := m.sets k
+      (List.range ((cs.getD k Cfg.empty).n)).any fun i => st.phase i == .waiting && st.rel i == .go && !st.ctx i && !starts.contains (off k + i) }
+
+/-! ### the legacy `Do` system -/
+
+def doMoves (d : DCfg) (s : DSt) : List (MoveKind × DSt) :=
+  let one (k : MoveKind) (e : DEv) : List (MoveKind × DSt) := match dstep d s e with | some s' => [(k, s')] | none => []
+  let ns := List.range d.zones.length
+  one .plain .ctxDone ++ one .plain .recv ++
+  ns.flatMap (fun i => one .plain (.force i)) ++ ns.flatMap (fun i => one .plain (.giveUp i)) ++
+  ns.flatMap (fun i => one .timer (.timer i))
+
+def doSys (d : DCfg) : Sys DSt :=
+  { moves := fun s =>
+      -- a delayed goroutine blocked on its select is only *forced* to move by a token or a done context
+      doMoves d s
+    delta := fun s s' => { starts := s'.started.drop s.started.length, cleans := []
+                           ret := if s.main = .running then showMain 0 s'.main else none }
+    act := fun s a =>
+      if a == "c" then dstep d s .cancel
+      else if a == "w" || a == "end" then some s
+      else match parseArrival a with
+        | some (g, ch) => dstep d s (.finish g (resOf ch))
+        | none => none
+    ctxOf := fun s _ => s.ctxCanc
+    wasStarted := fun s g => s.started.contains g
+    isReleased := fun _ _ => true
+    doomed := fun _ _ => false }
+
+/-! ## judge: the property statement on the observed trace -/
+
+structure Arr where
+  g : Nat
+  ch : Char
+  win : Nat
+
+def isZoneMode (s : SetD) : Bool := s.maxUnz > 0 || s.za
+
+/-- per window index: the arrival / cancel actions up to and including that window -/
+def arrivalsUpTo (wins : List Win) (w : Nat) : List Arr :=
+  (wins.zipIdx.filter (·.2 ≤ w)).filterMap fun (x, i) => (parseArrival x.act).map fun (g, ch) => { g := g, ch := ch, win := i }
+
+def cancelledBy (wins : List Win) (w : Nat) : Bool :=
+  (wins.zipIdx.filter (·.2 ≤ w)).any fun (x, _) => x.act == "c" || x.act == "init!"
+
+def isFail (ch : Char) : Bool := ch == 'E' || ch == 'T'
+def isSucc (ch : Char) : Bool := ch == 'S' || ch == 's'
+
+/-- global ids of set k -/
+def members (sets : List SetD) (k : Nat) : List Nat :=
+  let off := (offsets sets).getD k 0
+  match sets[k]? with
+  | some s => (List.range s.zones.length).map (· + off)
+  | none => []
+
+def zoneOfG (sets : List SetD) (g : Nat) : Nat :=
+  let (k, i) := locate sets g
+  match sets[k]? with | some s => s.zones.getD i 0 | none => 0
+
+/-- does the list `oks` of successful instances meet the success criterion of set k? -/
+def criterionHolds (sets : List SetD) (k : Nat) (oks : List Nat) : Bool :=
+  match sets[k]? with
+  | none => true
+  | some s =>
+    let mem := members sets k
+    let mine := (dedup oks).filter (mem.contains ·)
+    if isZoneMode s then
+      let zs := dedup s.zones
+      let full (z : Nat) := (mem.filter fun g => zoneOfG sets g == z).all (mine.contains ·)
+      (zs.filter full).length + s.maxUnz ≥ zs.length
+    else mine.length + s.maxErr ≥ mem.length
+
+/-- the arrivals that still matter for set k: those before (and including) the one with which the
+set's own success criterion was first met; the quorum read over that set is over then. -/
+def relevantArrivals (sets : List SetD) (k : Nat) (arr : List Arr) : List Arr :=
+  let mem := members sets k
+  let mine := arr.filter fun a => mem.contains a.g
+  if criterionHolds sets k [] then [] else
+  let rec go (seen : List Arr) : List Arr → List Arr
+    | [] => seen
+    | a :: rest =>
+      let seen' := seen ++ [a]
+      if criterionHolds sets k ((seen'.filter (isSucc ·.ch)).map (·.g)) then seen' else go seen' rest
+  go [] mine
+
+/-- has set k exceeded its tolerated failures, given the arrivals so far? -/
+def setFailuresExceeded (sets : List SetD) (k : Nat) (arr : List Arr) : Bool :=
+  match sets[k]? with
+  | none => false
+  | some s =>
+    let failing := ((relevantArrivals sets k arr).filter fun a => isFail a.ch).map (·.g)
+    if isZoneMode s then (dedup (failing.map (zoneOfG sets))).length > s.maxUnz
+    else failing.length > s.maxErr
+
+def errorDue (o : Opts) (sets : List SetD) (wins : List Win) (w : Nat) : Bool :=
+  let arr := arrivalsUpTo wins w
+  cancelledBy wins w ||
+  (o.term && (List.range sets.length).any fun k => (relevantArrivals sets k arr).any (·.ch == 'T')) ||
+  (List.range sets.length).any (fun k => setFailuresExceeded sets k arr) ||
+  (o.kind != 'd' && sets.any fun s => s.za && s.maxErr > 0)
+
+/-- does the returned list `rs` meet the success criterion of set k? -/
+def quorumReasons (sets : List SetD) (k : Nat) (rs : List Nat) (okBefore : List Nat) : List String :=
+  match sets[k]? with
+  | none => []
+  | some s =>
+    let mem := members sets k
+    let mine := rs.filter (mem.contains ·)
+    if isZoneMode s then
+      let zs := dedup s.zones
+      let zmem (z : Nat) := mem.filter fun g => zoneOfG sets g == z
+      let fullIn (l : List Nat) (z : Nat) := (zmem z).all (l.contains ·)
+      (if (zs.filter (fullIn mine)).length + s.maxUnz ≥ zs.length then [] else ["zone-quorum-not-reached"]) ++
+      (if mine.all fun g => fullIn okBefore (zoneOfG sets g) then [] else ["result-from-unsuccessful-zone"])
+    else
+      if mine.length + s.maxErr ≥ mem.length then [] else ["quorum-not-reached"]
+
+
+def judge (o : Opts) (sets : List SetD) (wins : List Win) : List String := Id.run do
+  let mut bad : List String := []
+  let nAll := (sets.map (·.zones.length)).foldl (· + ·) 0
+  let allStarts := wins.flatMap (·.starts)
+  let allCleans := wins.flatMap (·.cleans)
+  let isDo := o.kind == 'd'
+  -- each instance is called at most once
+  if (List.range nAll).any fun g => countOf allStarts g > 1 then bad := "called-twice" :: bad
+  -- the call returns
+  let retWin? := (wins.zipIdx.find? fun (w, _) => w.ret.isSome)
+  match retWin? with
+  | none => bad := "no-return" :: bad
+  | some (rw, ri) =>
+    let r := rw.ret.getD ""
+    let arr := arrivalsUpTo wins ri
+    let okBefore := (arr.filter (isSucc ·.ch)).map (·.g)
+    -- an error was due strictly before this window, yet the call had not returned
+    if ri > 0 && (List.range ri).any (fun w => errorDue o sets wins w) then bad := "no-error-when-due" :: bad
+    let returned : List Nat := if r.startsWith "R+" then (natList? (r.drop 2).toString).getD [] else []
+    if r.startsWith "R+" then
+      if ri > 0 && errorDue o sets wins ri then bad := "ok-when-error-due" :: bad
+      if returned.any fun g => countOf returned g > 1 then bad := "result-returned-twice" :: bad
+      if !(returned.all (okBefore.contains ·)) then bad := "result-not-from-successful-call" :: bad
+      for k in List.range sets.length do
+        bad := (quorumReasons sets k returned okBefore).map (fun x => if isDo && x == "result-from-unsuccessful-zone" then "do-" ++ x else x) ++ bad
+    else
+      if !errorDue o sets wins ri then bad := "error-not-due" :: bad
+    -- contexts of calls whose result is not used are cancelled, from the return on
+    for (w, i) in wins.zipIdx do
+      if i ≥ ri then
+        if (w.ctx.zipIdx).any fun (ch, g) => ch == 'L' && !returned.contains g then bad := "unused-context-not-cancelled" :: bad
+    -- cleanup exactly once for successful results that are not returned
+    if !isDo then
+      let okAll := ((arrivalsUpTo wins wins.length).filter (isSucc ·.ch)).map (·.g)
+      for g in List.range nAll do
+        let c := countOf allCleans g
+        if okAll.contains g then
+          if returned.contains g then
+            if c > 0 then bad := "cleanup-of-returned-result" :: bad
+          else
+            if c == 0 then
+              -- sub-class with its own key: the multi-set call failed although the set of g had met its
+              -- criterion with g among the deciding results; those results are dropped without cleanup
+              let (k, _) := locate sets g
+              let dropped := o.kind == 'm' && sets.length ≥ 2 && !r.startsWith "R+" &&
+                criterionHolds sets k okBefore && ((relevantArrivals sets k arr).any (·.g == g))
+              bad := (if dropped then "multi-error-drops-quorum-results-without-cleanup" else "cleanup-missing") :: bad
+            if c > 1 then bad := "cleanup-twice" :: bad
+        else if c > 0 then bad := "cleanup-of-nonresult" :: bad
+  -- after the last window nothing was due and unreturned (covers the case of no return at all)
+  -- request minimisation: only as many calls as needed until a failure / the hedging delay releases more
+  for (w, i) in wins.zipIdx do
+    if !cancelledBy wins i then
+      let arr := arrivalsUpTo wins i
+      let startedSoFar := dedup ((wins.take (i + 1)).flatMap (·.starts))
+      for k in List.range sets.length do
+        match sets[k]? with
+        | none => pure ()
+        | some s =>
+          let mem := members sets k
+          let st := startedSoFar.filter (mem.contains ·)
+          let failing := (arr.filter fun a => isFail a.ch && mem.contains a.g).map (·.g)
+          if isDo then
+            if o.hedge && s.maxUnz == 0 && w.tb == 0 then
+              if st.length > (mem.length - s.maxErr) + failing.length then bad := "extra-request-before-failure-or-delay" :: bad
+          else if o.min then
+            if isZoneMode s then
+              let zs := dedup s.zones
+              let stz := dedup (st.map (zoneOfG sets))
+              let fz := dedup (failing.map (zoneOfG sets))
+              if stz.length > (zs.length - s.maxUnz) + fz.length + w.tb then bad := "too-many-zones-requested" :: bad
+            else
+              if st.length > (mem.length - s.maxErr) + failing.length + w.tb then bad := "too-many-requests" :: bad
+  return dedupS bad
+where
+  dedupS (l : List String) : List String := l.foldl (fun acc x => if acc.contains x then acc else acc ++ [x]) []
+
+/-! ## handlers -/
+
+def localStarts (sets : List SetD) (k : Nat) (l : List Nat) : List Nat :=
+  l.filterMap fun g => let (k', i) := locate sets g; if k' == k then some i else none
+
+def tagsOf (o : Opts) (sets : List SetD) (script : String) (wins : List Win) : String :=
+  let n := (sets.map (·.zones.length)).foldl (· + ·) 0
+  let s0 := sets.headD { zones := [], maxErr := 0, maxUnz := 0, za := false }
+  let mode := if sets.any (fun s => s.za && s.maxErr > 0) then "invalid" else if isZoneMode s0 then "zone" else "flat"
+  let ret := match wins.find? (·.ret.isSome) with
+    | some w =>
+      let r := w.ret.getD ""
+      if r.startsWith "R+" then "ok" else if r.startsWith "R!i" then "insterr" else (r.drop 2).toString
+    | none => "none"
+  let retAt := match wins.zipIdx.find? (·.1.ret.isSome) with | some (_, i) => if i == 0 then "init" else "later" | none => "never"
+  let outs := scriptOutcomes script
+  let nf := (outs.filter isFail).length
+  let canc := wins.any fun w => w.act == "c" || w.act == "init!"
+  let late := match wins.zipIdx.find? (·.1.ret.isSome) with
+    | some (_, i) => ((wins.drop (i + 1)).filter fun w => (parseArrival w.act).isSome).length
+    | none => 0
+  let ticks := (wins.filter (·.act == "w")).length
+  let triv := if retAt == "init" && !canc then " trivial" else ""
+  s!"k={o.kind} mode={mode} n={min n 6} sets={sets.length} min={o.min} hedge={o.hedge} term={o.term} sorter={o.sorter.isSome} ret={ret} fails={min nf 3} cancel={canc} late={min late 2} waits={min ticks 2}{triv}"
+
+def handleQ (f : List String) : String × String × String :=
+  match f with
+  | [opts, sets, script, trace] =>
+    match parseOpts opts, parseSets sets with
+    | some o, some ss =>
+      let wins0 := parseTrace trace
+      let wins := if o.kind == 'm' && ss.length ≥ 2 then wins0.map fun w =>
+          match w.ret with
+          | some r => if r.startsWith "R+" then { w with ret := some ("R+" ++ showNatList (sortNat ((natList? (r.drop 2).toString).getD []))) } else w
+          | none => w
+        else wins0
+      let j := judge o ss wins
+      let js := if j.isEmpty then "-" else ",".intercalate j
+      let tags := tagsOf o ss script wins
+      match wins with
+      | [] => ("empty-trace", js, tags)
+      | w0 :: _ =>
+        let pre := w0.act == "init!"
+        let later := (wins.drop 1).flatMap (·.starts)
+        let diff :=
+          if o.kind == 'd' then
+            match ss with
+            | [s] =>
+              let d : DCfg := { zones := s.zones, maxErrors := s.maxErr, maxUnavail := s.maxUnz, delay := o.hedge }
+              let s0 := dinit d pre
+              -- first window: the launch; visible effects of the initial state itself
+              let w0' := { w0 with starts := (removeAll w0.starts s0.started).getD [999], ret := if s0.main = .running then w0.ret else (if showMain 0 s0.main == w0.ret then none else some "mismatch") }
+              accept (doSys d) s0 (w0' :: wins.drop 1)
+            | _ => "bad-sets"
+          else if o.kind == 'm' && ss.length ≥ 2 then
+            let cs := ss.map (toCfg o)
+            let orders := (ss.zipIdx).map fun (s, k) => inferOrder o (toCfg o s) (localStarts ss k w0.starts) (localStarts ss k later)
+            let m0 := minit cs orders pre
+            accept (multiSys ss cs) m0 wins
+          else
+            match ss with
+            | [s] =>
+              let c := toCfg { o with kind := if o.kind == 'm' then 'w' else o.kind } s
+              let order := inferOrder o c w0.starts later
+              let s0 := init c order pre
+              let w0' := { w0 with ret := if s0.main = .running then w0.ret else (if showMain 0 s0.main == w0.ret then none else some "mismatch")
+                                   cleans := w0.cleans }
+              accept (singleSys c) s0 (w0' :: wins.drop 1)
+            | _ => "bad-sets"
+        (diff, js, tags)
+    | _, _ => ("bad-input", "-", "-")
+  | _ => ("bad-fields", "-", "-")
+
+def handle (cmd : String) (f : List String) : String × String × String :=
+  if cmd == "C11.q" || cmd == "C11.m" || cmd == "C11.d" then handleQ f
+  else ("unknown-cmd", "-", "-")
 
 end OracleC11
